@@ -63,7 +63,9 @@ def rf_configs(draw, spf_cap=4096, boundary_p=0.6, force=None):
         # 10-100 MHz rates do not exercise
         n, d = draw(st.sampled_from(HIGH_RATES))
     # file cadence: at least one sample in *every* file  <=> F*n >= 1000*d ; cap samples per file
-    cands = [F for F in CADENCES if F * n >= 1000 * d and _spf(n, d, F) <= spf_cap]
+    # (one case in eight may use a cadence with LESS than one sample per file period: most periods then have no file)
+    slow_ok = draw(st.integers(0, 7)) == 0
+    cands = [F for F in CADENCES if (F * n >= 1000 * d or (slow_ok and F * n * 50 >= 1000 * d)) and _spf(n, d, F) <= spf_cap]
     if not cands:
         # derive a cadence that gives a handful of samples per file
         want = draw(st.integers(1, 64))
@@ -86,7 +88,7 @@ def rf_configs(draw, spf_cap=4096, boundary_p=0.6, force=None):
         order = "<"  # numpy reports '|' for one-byte types; the writer maps that to little endian
     cplx = draw(st.integers(0, 1))
     form = draw(st.sampled_from(["struct", "native", "interleaved"]))
-    nsub = draw(st.sampled_from([1, 1, 2, 3, 4, 8]))
+    nsub = draw(st.sampled_from([1, 1, 1, 2, 2, 3, 4, 8, 32]))
     cont = draw(st.integers(0, 1))
     comp = draw(st.sampled_from([0, 0, 0, 0, 0, 0, 0, 1, 6, 9]))
     checksum = draw(st.sampled_from([0, 0, 0, 1]))
@@ -101,8 +103,20 @@ def rf_configs(draw, spf_cap=4096, boundary_p=0.6, force=None):
         cfg["nsub"] = 1
         cfg["cplx"] = 0
         cfg["size"] = 4 if kind == "f" else min(size, 2)
+    if F * n < 1000 * d:
+        # less than one sample per file period: the library derives a chunk size of 0 samples from it and cannot create a
+        # chunked data set at all (observed: H5Pset_chunk "all chunk dimensions must be positive", the write then fails) -
+        # no listed property is about that, so such cadences are generated for the unchunked layout only
+        cfg.update({"cont": 1, "comp": 0, "checksum": 0})
     if force:
         cfg.update(force)
+    if F * n < 1000 * d and (not cfg["cont"] or cfg["comp"] or cfg["checksum"]):
+        # (a caller forced a chunked layout: use the smallest listed cadence that holds a sample in every file)
+        ok = [F2 for F2 in CADENCES if F2 * n >= 1000 * d]
+        if ok:
+            F = ok[0]
+            cfg["F"] = F
+            cfg["S"] = F // 1000 if F % 1000 == 0 else F
     if cfg["cplx"] and cfg["kind"] == "f" and cfg["form"] == "native" and cfg["order"] == ">":
         # DigitalRFWriter derives the real type of a numpy complex dtype as native "f4"/"f8": a big-endian complex
         # dtype is stored little-endian (values preserved).  Big-endian complex floats are generated in struct form.
@@ -142,6 +156,21 @@ def rf_configs(draw, spf_cap=4096, boundary_p=0.6, force=None):
         cfg["start"] += 1  # make it odd / inexact in binary64
         if float(cfg["start"]) == cfg["start"]:
             cfg["start"] += 2
+    if not force_big:
+        # era: mostly 1980-2100; sometimes right after the epoch (indices near 0), after 2106 (seconds need more than 32
+        # bits) or in the far future.  Shifts are by whole multiples of S*d seconds = S*n samples, which keeps the position
+        # relative to every file / subdirectory boundary
+        era = draw(st.sampled_from(["std"] * 12 + ["epoch", "post2106", "post2106", "far"]))
+        unit_t, unit_k = cfg["S"] * d, cfg["S"] * n
+        cur_t = cfg["start"] * d // n
+        if era == "epoch":
+            cfg["start"] -= (cfg["start"] // unit_k) * unit_k
+        elif era in ("post2106", "far"):
+            target = (1 << 32) - 3 * unit_t + draw(st.integers(0, 10 ** 9)) if era == "post2106" else 250000000000 - draw(st.integers(0, 10 ** 10))
+            K = (target - cur_t) // unit_t + 1
+            if K > 0 and ((cur_t + K * unit_t + 10 ** 6) * n) // d < (1 << 62) and cur_t + K * unit_t < 253402000000:
+                cfg["start"] += K * unit_k
+        cfg["era"] = era
     return cfg
 
 
@@ -249,7 +278,7 @@ def read_ranges(draw, model, count):
             a, e = lo_all, hi_all
         if e < a:
             a, e = e, a
-        out.append([a, e])
+        out.append([max(0, a), max(0, e)])
     return out
 
 
